@@ -44,7 +44,7 @@ fn diff_leaves(a: &Sx, b: &Sx, out: &mut Vec<(Sx, Sx)>) -> bool {
 }
 
 pub fn run(ctx: &Ctx, rep: &mut Report) {
-    let n = ctx.pick(1000, 100_000);
+    let n = ctx.pick(1000, 2_000_000);
     par_cases(ctx, "history", n, rep, |i, rep| {
         let mut r = Rng::for_case(ctx.seed, "history", i);
         let case = format!("history:{}", i);
@@ -138,7 +138,7 @@ pub fn run(ctx: &Ctx, rep: &mut Report) {
             rep.nontrivial(&format!("{:?}|{}|{}", e, p1, p2));
             rep.count("hostile_path_pairs");
         }
-        if rep.samples.len() < 5 && hostile && p1.len() < 40 && p2.len() < 40 {
+        if (rep.samples.is_empty() && p1.len() < 200 && p2.len() < 200) || (rep.samples.len() < 5 && hostile && p1.len() < 40 && p2.len() < 40) {
             rep.sample(J::obj(vec![("paths", J::Arr(vec![J::s(&p1), J::s(&p2)])), ("renders", J::Int(5)), ("verdict", J::s("identical for same path; one differing string leaf decoding to the paths; io_map unchanged"))]));
         }
     });
